@@ -5,9 +5,11 @@
    hash160, sha256 : any functions (sha256 with 32-byte output for the refutation example);
    xpub : any type; derive : xpub -> path -> option sec is any function (HDPublicKey.child iterated).
    Section hypotheses that remain premises: none, except [forall b, length (sha256 b) = 32] in
-   C11_witness_utxo_amount_unchecked_refuted (needed for the example PSBT to be a P2WSH spend). *)
+   C11_witness_utxo_amount_unchecked_refuted (needed for the example PSBT to be a P2WSH spend) and the
+   two output-length premises of the completeness theorems C11_honest_psbt_summarised /
+   C11_honest_spec_summarised (without them no scriptPubKey has the P2SH / P2WSH shape). *)
 From V Require Import Base.Prelude Base.Ints Model.Helper Model.Script Model.PsbtDescribe
-  Proofs.PsbtDescribeP.
+  Proofs.PsbtDescribeP Spec.PsbtHonest Proofs.PsbtHonestP Model.PsbtBuilder Proofs.PsbtBuilderP.
 From Coq Require Import Permutation.
 
 (* get_quorum (both script classes, after fixes a89f508 / 6e9e1d2) accepts exactly
@@ -95,6 +97,190 @@ Theorem C11_witness_utxo_amount_unchecked_refuted :
 Proof. exact witness_utxo_amount_unchecked_refuted. Qed.
 Print Assumptions C11_witness_utxo_amount_unchecked_refuted.
 
+(* (5) COMPLETENESS: every honest spend of an m-of-n wallet is summarised, for all m, n, numbers of
+   inputs and outputs and amounts.  Honest = every input spends an output that commits (P2SH with a
+   non-witness UTXO, or P2WSH with either or both UTXO records) to a standard m-of-n script containing
+   its named keys, one named key per xpub of the map, each derived from its xpub at the trimmed path;
+   every output is a plain payment to an addressable script or a change output (P2SH / P2WSH /
+   P2SH-P2WSH) committing to such a script with n keys of n distinct cosigners; at most one change;
+   global xpubs (if any) that are ancestors of a named key derive it; input values known, sum <> 0.
+   Premises on the hashes: output lengths 20 and 32 (otherwise no scriptPubKey has the P2SH/P2WSH shape).
+   Together with (1)-(3) this characterises what is summarised. *)
+Theorem C11_honest_psbt_summarised : forall hash160 sha256 xpub derive,
+  (forall b, length (hash160 b) = 20%nat) -> (forall b, length (sha256 b) = 32%nat) ->
+  forall hm0 (p : psbt xpub) hm m n vs,
+  effective_map xpub hm0 p hm -> hm <> [] -> n = zlen hm -> p_ins p <> [] ->
+  Forall (honest_in hash160 sha256 xpub derive hm m n) (p_ins p) ->
+  Forall (honest_out hash160 sha256 xpub derive hm m n) (p_outs p) ->
+  (length (filter is_change (p_outs p)) <= 1)%nat ->
+  Forall (ancestors_ok xpub derive (p_hd_pubs p)) (all_pubs xpub p) ->
+  map i_value (p_ins p) = map Some vs -> sumz vs <> 0 ->
+  exists s, describe hash160 sha256 xpub derive hm0 p = Ok s /\
+    s_m s = m /\ s_n s = n /\
+    s_fee s = sumz vs - sumz (map o_amount (p_outs p)) /\
+    s_total_in s = sumz vs /\ s_total_out s = sumz (map o_amount (p_outs p)) /\
+    s_ins s = map (fun v => (m, n, v)) vs /\
+    s_outs s = map (fun o => (o_amount o, is_change o)) (p_outs p) /\
+    s_spend s = sumz (map o_amount (filter (fun o => negb (is_change o)) (p_outs p))) /\
+    s_change s = sumz (map o_amount (filter is_change (p_outs p))) /\
+    s_spend s + s_change s + s_fee s = sumz vs.
+Proof. exact honest_psbt_summarised. Qed.
+Print Assumptions C11_honest_psbt_summarised.
+
+(* (5') the executable wallet relation of Spec/PsbtHonest.v implies the premises of (5): whatever it
+   accepts is summarised.  The correspondence harness evaluates it on every generated PSBT (op
+   "honest_spec"): it accepts the honest ones, also those built by create_multisig_psbt, and none of
+   the tampered ones. *)
+Theorem C11_honest_spec_summarised : forall hash160 sha256 xpub derive,
+  (forall b, length (hash160 b) = 20%nat) -> (forall b, length (sha256 b) = 32%nat) ->
+  forall hm0 (p : psbt xpub) m,
+  honest_psbt_b hash160 sha256 xpub derive hm0 p m = true ->
+  exists s vs, describe hash160 sha256 xpub derive hm0 p = Ok s /\
+    map i_value (p_ins p) = map Some vs /\
+    s_m s = m /\ s_n s = zlen (eff_map xpub hm0 p) /\
+    s_fee s = sumz vs - sumz (map o_amount (p_outs p)) /\
+    s_outs s = map (fun o => (o_amount o, is_change o)) (p_outs p) /\
+    s_spend s + s_change s + s_fee s = sumz vs.
+Proof. intros h1 h2 x d L1 L2. exact (honest_psbt_b_summarised h1 h2 x d L1 L2). Qed.
+Print Assumptions C11_honest_spec_summarised.
+
+(* (3b') the tamper catalogue for ANY hdpubkey_map argument, including the empty one (the map is then
+   built from the PSBT's own global xpubs) *)
+Theorem C11_tamper_rejected_any_map : forall hash160 sha256 xpub derive hm0 (p : psbt xpub),
+  tampered hash160 sha256 xpub derive (eff_map xpub hm0 p) p ->
+  describe hash160 sha256 xpub derive hm0 p = Err.
+Proof. exact tamper_rejected_any_map. Qed.
+Print Assumptions C11_tamper_rejected_any_map.
+
+(* (2') every declared cosigner contributes exactly one key to an output labelled change: the
+   fingerprints of the output's named keys are a permutation of the fingerprints of the xpub map *)
+Theorem C11_change_one_key_per_cosigner : forall hash160 sha256 xpub derive hm0 (p : psbt xpub) s o,
+  describe hash160 sha256 xpub derive hm0 p = Ok s -> In o (p_outs p) -> is_change o = true ->
+  Permutation (map np_xfp (o_pubs o)) (map fst (eff_map xpub hm0 p)) /\
+  forall np, In np (o_pubs o) -> derives_from xpub derive (eff_map xpub hm0 p) np.
+Proof. exact change_one_key_per_cosigner. Qed.
+Print Assumptions C11_change_one_key_per_cosigner.
+
+(* (2'') "commits by hash": two summaries - possibly of different PSBTs and with different xpub maps -
+   that label the SAME scriptPubKey as change evaluated the same script for it (hence the same quorum),
+   unless a collision of hash160 or sha256 is exhibited; likewise for two inputs whose UTXO records show the
+   same spent scriptPubKey (a foreign redeem/witness script for a genuine UTXO is rejected or is a
+   collision; since fix 786fa3c no "has a UTXO record" premise is needed) *)
+Theorem C11_change_commitment_binding : forall hash160 sha256 xpub derive
+    hm0 (p : psbt xpub) s o hm0' (p' : psbt xpub) s' o',
+  describe hash160 sha256 xpub derive hm0 p = Ok s -> In o (p_outs p) -> is_change o = true ->
+  describe hash160 sha256 xpub derive hm0' p' = Ok s' -> In o' (p_outs p') -> is_change o' = true ->
+  o_spk o = o_spk o' ->
+  (exists sc, out_script o = Some sc /\ out_script o' = Some sc /\ std_multisig (s_m s) (s_n s) sc /\
+              s_m s = s_m s' /\ s_n s = s_n s') \/
+  collision hash160 \/ collision sha256.
+Proof. exact change_commitment_binding. Qed.
+Print Assumptions C11_change_commitment_binding.
+
+Theorem C11_input_commitment_binding : forall hash160 sha256 xpub derive
+    hm0 (p : psbt xpub) s i hm0' (p' : psbt xpub) s' i',
+  describe hash160 sha256 xpub derive hm0 p = Ok s -> In i (p_ins p) ->
+  describe hash160 sha256 xpub derive hm0' p' = Ok s' -> In i' (p_ins p') ->
+  in_spk i = in_spk i' ->
+  (exists sc, in_script i = Some sc /\ in_script i' = Some sc /\ std_multisig (s_m s) (s_n s) sc /\
+              s_m s = s_m s' /\ s_n s = s_n s') \/
+  collision hash160 \/ collision sha256.
+Proof. exact input_commitment_binding. Qed.
+Print Assumptions C11_input_commitment_binding.
+
+(* (1') the amounts are those of the attached UTXO records: when tx_in._value is the amount of one of the
+   attached records (PSBTIn.parse and PSBTIn.update assign it so), the total and the fee of a returned
+   summary are computed from the amounts the records show (both records agree when both are attached) *)
+Theorem C11_fee_from_utxo_records : forall hash160 sha256 xpub derive hm0 (p : psbt xpub) s,
+  describe hash160 sha256 xpub derive hm0 p = Ok s -> Forall value_from_records (p_ins p) ->
+  exists vs, map shown_amount (p_ins p) = map Some vs /\
+             s_total_in s = sumz vs /\ s_fee s = sumz vs - sumz (map o_amount (p_outs p)) /\
+             s_spend s + s_change s + s_fee s = sumz vs.
+Proof. exact fee_from_utxo_records. Qed.
+Print Assumptions C11_fee_from_utxo_records.
+
+(* (3c) altered UTXO amount / previous transaction: two summarised inputs that spend the same outpoint
+   and carry a previous transaction show the same amount and scriptPubKey, unless two different
+   previous transactions have the same hash (a collision of Tx.hash, abstract here) *)
+Theorem C11_input_utxo_binding : forall hash160 sha256 xpub derive
+    hm0 (p : psbt xpub) s i hm0' (p' : psbt xpub) s' i' pt pt',
+  describe hash160 sha256 xpub derive hm0 p = Ok s -> In i (p_ins p) ->
+  describe hash160 sha256 xpub derive hm0' p' = Ok s' -> In i' (p_ins p') ->
+  i_txid i = i_txid i' -> i_index i = i_index i' ->
+  i_prev_tx i = Some pt -> i_prev_tx i' = Some pt' ->
+  (exists u, nthz (pt_outs pt) (i_index i) = Some u /\ nthz (pt_outs pt') (i_index i') = Some u /\
+             shown_amount i = Some (u_amount u) /\ shown_amount i' = Some (u_amount u)) \/
+  (pt_outs pt <> pt_outs pt' /\ pt_hash pt = pt_hash pt').
+Proof. exact input_utxo_binding. Qed.
+Print Assumptions C11_input_utxo_binding.
+
+(* get_quorum is also COMPLETE: both functions return (m, n) on every standard m-of-n script, and
+   such a script always serialises *)
+Theorem C11_quorum_of_standard_multisig : forall cs m n,
+  std_multisig m n cs ->
+  redeem_quorum cs = Ok (m, n) /\ witness_quorum cs = Ok (m, n) /\ exists ser, ser_cmds cs = Ok ser.
+Proof.
+  intros cs m n H.
+  exact (conj (redeem_quorum_complete m n cs H) (conj (witness_quorum_complete m n cs H) (std_multisig_ser m n cs H))).
+Qed.
+Print Assumptions C11_quorum_of_standard_multisig.
+
+(* (4') an input that carries NEITHER UTXO record (fixed defect F-C11-no-utxo-record, commit 786fa3c: before
+   the fix PSBTIn.validate had nothing to compare the attached script with and the summary showed the
+   claimed script and the cached / fetched amount).  Now: such an input makes describe refuse, for every
+   map and every PSBT; hence every input of a summarised PSBT shows a spent scriptPubKey and that
+   scriptPubKey commits to the evaluated standard m-of-n script, which contains all named keys - the
+   commitment clause of C11_accepted_input_sound without its "has a UTXO record" premise.  The catalogue
+   [tampered] has the corresponding 18th constructor T_in_no_utxo. *)
+Theorem C11_no_utxo_record_rejected : forall hash160 sha256 xpub derive hm0 (p : psbt xpub) i,
+  In i (p_ins p) -> i_prev_tx i = None -> i_prev_out i = None ->
+  describe hash160 sha256 xpub derive hm0 p = Err.
+Proof. exact no_utxo_record_rejected. Qed.
+Print Assumptions C11_no_utxo_record_rejected.
+
+Theorem C11_accepted_input_commits : forall hash160 sha256 xpub derive hm0 (p : psbt xpub) s i,
+  describe hash160 sha256 xpub derive hm0 p = Ok s -> In i (p_ins p) ->
+  exists spk, in_spk i = Ok (Some spk) /\
+    exists sc, (i_witness i = Some sc \/ (i_witness i = None /\ i_redeem i = Some sc)) /\
+               std_multisig (s_m s) (s_n s) sc /\ in_commits hash160 sha256 i spk sc /\
+               forall np, In np (i_pubs i) -> In (Push (np_key np)) sc.
+Proof. exact accepted_input_has_record. Qed.
+Print Assumptions C11_accepted_input_commits.
+
+(* (6) the builder psbt_helper.create_multisig_psbt (Model/PsbtBuilder.v: its hash / amount / address / fee
+   cross-checks, PSBT.create with PSBTIn.update / PSBTOut.update, the final PSBT.validate), composed with the
+   summary.  [bderive] stands for _safe_get_child_hdpubkey + NamedHDPublicKey.from_hd_pub (any function).
+   Whenever the builder returns a PSBT: the stated amounts are those of the referenced previous outputs, the
+   stated fee is their sum minus the outputs and is what Tx.fee computes on the returned PSBT, the PSBT lists
+   exactly the caller's outputs and outpoints and validates; and EVERY summary of that PSBT shows the stated
+   fee, totals and output amounts.  Premise: two supplied previous transactions with the same hash are the
+   same transaction (tx_lookup is keyed by the hash). *)
+Theorem C11_builder_fee_crosscheck : forall hash160 sha256 xpub derive bderive recs ins outs fee (p : psbt xpub),
+  no_hash_clash ins -> ins <> [] ->
+  create_psbt hash160 sha256 xpub derive bderive recs ins outs fee = Ok p ->
+  exists vals,
+    map bin_amount ins = map Some vals /\ map bi_sats ins = vals /\
+    fee = sumz vals - sumz (map bo_sats outs) /\
+    tx_fee xpub p = Ok fee /\
+    map o_amount (p_outs p) = map bo_sats outs /\ map o_spk (p_outs p) = map bo_spk outs /\
+    map i_txid (p_ins p) = map (fun i => pt_hash (bi_prev i)) ins /\
+    map i_index (p_ins p) = map bi_idx ins /\
+    validate_psbt hash160 sha256 xpub derive p = Ok tt.
+Proof. exact builder_fee_crosscheck. Qed.
+Print Assumptions C11_builder_fee_crosscheck.
+
+Theorem C11_builder_then_describe : forall hash160 sha256 xpub derive bderive recs ins outs fee (p : psbt xpub) hm0 s,
+  no_hash_clash ins -> ins <> [] ->
+  create_psbt hash160 sha256 xpub derive bderive recs ins outs fee = Ok p ->
+  describe hash160 sha256 xpub derive hm0 p = Ok s ->
+  s_fee s = fee /\
+  s_total_in s = sumz (map bi_sats ins) /\
+  s_total_out s = sumz (map bo_sats outs) /\
+  map fst (s_outs s) = map bo_sats outs /\
+  s_spend s + s_change s + fee = sumz (map bi_sats ins).
+Proof. exact builder_then_describe. Qed.
+Print Assumptions C11_builder_then_describe.
+
 (* ---------------------------------------------------------------- non-vacuity *)
 (* toy instantiation: truncating "hashes", an arithmetic "derivation"; a 2-of-2 P2WSH wallet
    spending one UTXO (non-witness record attached) to one foreign output and one change output *)
@@ -145,4 +331,110 @@ Example C11_refutation_premises :
   (forall b, length (ts256 b) = 32%nat) /\ tderive 1 [0; 1] = Some (tkey 1 0 1) /\ zlen (tkey 1 0 1) = 33.
 Proof.
   repeat split. intros b. unfold ts256. rewrite firstn_length, app_length, repeatz_length. lia.
+Qed.
+
+(* the toy hashes satisfy the length premises of (5), and the wallet relation accepts the honest toy
+   PSBT: the premises of C11_honest_spec_summarised / C11_honest_psbt_summarised are satisfiable *)
+Example C11_toy_hash_lengths :
+  (forall b, length (th160 b) = 20%nat) /\ (forall b, length (ts256 b) = 32%nat).
+Proof.
+  split; intros b; [unfold th160|unfold ts256]; rewrite firstn_length, app_length, repeatz_length; lia.
+Qed.
+
+Example C11_honest_spec_accepts_toy : honest_psbt_b th160 ts256 Z tderive t_map (t_psbt [1]) 2 = true.
+Proof. vm_compute. reflexivity. Qed.
+
+(* ... and it refuses the tampered one, and the same PSBT under another threshold *)
+Example C11_honest_spec_refuses_tampered :
+  honest_psbt_b th160 ts256 Z tderive t_map (t_psbt [9]) 2 = false /\
+  honest_psbt_b th160 ts256 Z tderive t_map (t_psbt [1]) 1 = false.
+Proof. split; vm_compute; reflexivity. Qed.
+
+(* a P2SH wallet with the map taken from the PSBT's own global xpubs (hdpubkey_map argument empty):
+   2-of-3, two inputs, a P2SH change output in front of a payment *)
+Definition tms3 (ks : list bytes) : list cmd := Op 82 :: map Push ks ++ [Op 83; Op 174].
+Definition t_in3 (b : Z) (v : Z) : pin :=
+  {| i_txid := [b]; i_index := 1;
+     i_prev_tx := Some {| pt_hash := [b];
+                          pt_outs := [{| u_amount := 7; u_spk := p2wsh_script (repeatz 3 32) |};
+                                      {| u_amount := v;
+                                         u_spk := p2sh_script (th160 (tser (tms3 [tkey 1 0 b; tkey 2 0 b; tkey 3 0 b]))) |}] |};
+     i_prev_out := None; i_redeem := Some (tms3 [tkey 1 0 b; tkey 2 0 b; tkey 3 0 b]); i_witness := None;
+     i_pubs := [tpub 1 0 b; tpub 2 0 b; tpub 3 0 b]; i_value := Some v |}.
+Definition t_chg3 : pout :=
+  {| o_amount := 2500; o_spk := p2sh_script (th160 (tser (tms3 [tkey 1 1 4; tkey 2 1 4; tkey 3 1 4])));
+     o_redeem := Some (tms3 [tkey 1 1 4; tkey 2 1 4; tkey 3 1 4]); o_witness := None;
+     o_pubs := [tpub 3 1 4; tpub 1 1 4; tpub 2 1 4] |}.
+Definition t_hd (x : Z) : hdpub Z := {| h_xfp := [x]; h_path := [45]; h_xpub := x |}.
+Definition t_psbt3 : psbt Z :=
+  {| p_ins := [t_in3 1 4000; t_in3 5 6000]; p_outs := [t_chg3; out1]; p_hd_pubs := [t_hd 1; t_hd 2; t_hd 3] |}.
+(* tderive for the descendant check of PSBT.validate: the global xpub at m/45 derives a/b *)
+Example C11_honest_p2sh_own_xpubs :
+  honest_psbt_b th160 ts256 Z tderive [] t_psbt3 2 = true /\
+  exists s, describe th160 ts256 Z tderive [] t_psbt3 = Ok s /\
+            s_fee s = 6500 /\ s_spend s = 1000 /\ s_change s = 2500 /\ s_m s = 2 /\ s_n s = 3 /\
+            s_outs s = [(2500, true); (1000, false)].
+Proof. split; [vm_compute; reflexivity|]. eexists. split; [vm_compute; reflexivity|]. repeat split. Qed.
+
+(* observation (not a defect of the model, see the manifest): the first [depth] components of a named
+   key's stated path are not compared with anything - the summary is the same *)
+Definition t_chg_prefix : pout :=
+  {| o_amount := 3000; o_spk := o_spk t_chg; o_redeem := None; o_witness := o_witness t_chg;
+     o_pubs := [{| np_key := tkey 1 1 0; np_sec := tkey 1 1 0; np_xfp := [1]; np_path := [999; 1; 0] |};
+                tpub 2 1 0] |}.
+Example C11_stated_path_prefix_not_compared :
+  describe th160 ts256 Z tderive t_map {| p_ins := [t_in [1]]; p_outs := [out1; t_chg_prefix]; p_hd_pubs := [] |}
+  = describe th160 ts256 Z tderive t_map (t_psbt [1]).
+Proof. vm_compute. reflexivity. Qed.
+
+(* the premise of C11_fee_from_utxo_records holds for the toy PSBTs *)
+Example C11_toy_values_from_records :
+  Forall value_from_records (p_ins (t_psbt [1])) /\ Forall value_from_records (p_ins t_psbt3).
+Proof.
+  split.
+  - apply Forall_cons; [|apply Forall_nil]. intros v H. cbn in H. injection H as <-. left.
+    do 2 eexists. repeat split; reflexivity.
+  - apply Forall_cons; [|apply Forall_cons; [|apply Forall_nil]]; intros v H; cbn in H; injection H as <-; left;
+      do 2 eexists; repeat split; reflexivity.
+Qed.
+
+(* the builder on toy data: one record per cosigner at m/45, two inputs and a change output of the 2-of-3
+   P2SH wallet of t_psbt3 - it returns exactly t_psbt3, which is summarised (C11_honest_p2sh_own_xpubs) *)
+Definition t_bderive (x p : bytes) : option (bytes * list Z) :=
+  match x, p with [x0], [a; b] => Some (tkey x0 a b, [45; a; b]) | _, _ => None end.
+Definition t_rec (x : Z) : brec Z := {| r_xfp := [x]; r_path := [45]; r_xpub := x; r_depth := 1; r_net := 1 |}.
+Definition t_bin (b v : Z) : bin :=
+  {| bi_m := 2; bi_paths := [([3], [0; b]); ([1], [0; b]); ([2], [0; b])];
+     bi_prev := {| pt_hash := [b];
+                   pt_outs := [{| u_amount := 7; u_spk := p2wsh_script (repeatz 3 32) |};
+                               {| u_amount := v;
+                                  u_spk := p2sh_script (th160 (tser (tms3 [tkey 1 0 b; tkey 2 0 b; tkey 3 0 b]))) |}] |};
+     bi_hash := [b]; bi_idx := 1; bi_sats := v |}.
+Definition t_bouts : list bout :=
+  [{| bo_sats := 2500; bo_spk := o_spk t_chg3; bo_m := 2; bo_paths := [([3], [1; 4]); ([1], [1; 4]); ([2], [1; 4])] |};
+   {| bo_sats := 1000; bo_spk := o_spk out1; bo_m := -1; bo_paths := [] |}].
+Example C11_builder_builds_toy :
+  no_hash_clash [t_bin 1 4000; t_bin 5 6000] /\
+  create_psbt th160 ts256 Z tderive t_bderive [t_rec 1; t_rec 2; t_rec 3] [t_bin 1 4000; t_bin 5 6000] t_bouts 6500
+  = Ok {| p_ins := [t_in3 1 4000; t_in3 5 6000];
+          p_outs := [{| o_amount := 2500; o_spk := o_spk t_chg3; o_redeem := o_redeem t_chg3; o_witness := None;
+                        o_pubs := [tpub 1 1 4; tpub 2 1 4; tpub 3 1 4] |}; out1];
+          p_hd_pubs := [t_hd 1; t_hd 2; t_hd 3] |} /\
+  create_psbt th160 ts256 Z tderive t_bderive [t_rec 1; t_rec 2; t_rec 3] [t_bin 1 4000; t_bin 5 6000] t_bouts 6501 = Err.
+Proof.
+  split; [|split; vm_compute; reflexivity].
+  intros i j [<-|[<-|[]]] [<-|[<-|[]]] H; try reflexivity; vm_compute in H; discriminate H.
+Qed.
+
+(* the former witnesses of the no-UTXO-record defect: they pass PSBT.validate, and are refused by the
+   summary (instances of C11_no_utxo_record_rejected; T_in_no_utxo is inhabited) *)
+Example C11_no_utxo_record_witnesses_rejected :
+  describe (nr_h 20) (nr_h 32) Z nr_derive nr_map (nr_psbt 1) = Err /\
+  describe (nr_h 20) (nr_h 32) Z nr_derive nr_map (nr_psbt 2) = Err /\
+  i_prev_tx (nr_in 1) = None /\ i_prev_out (nr_in 1) = None /\
+  validate_psbt (nr_h 20) (nr_h 32) Z nr_derive (nr_psbt 1) = Ok tt /\
+  tampered (nr_h 20) (nr_h 32) Z nr_derive nr_map (nr_psbt 1).
+Proof.
+  destruct no_utxo_record_witnesses_rejected as (H1 & H2 & H3 & H4 & H5). repeat split; try assumption.
+  apply T_in_no_utxo with (i := nr_in 1); [left|..]; reflexivity.
 Qed.
